@@ -105,7 +105,8 @@ func c08Child(args []string) {
 	ldbstorage.VerifHook = func(phase, op, path string) {
 		if inRequest && phase == "pre" {
 			switch op {
-			case "MkdirAll", "Rename", "Remove", "OpenFile+create":
+			case "MkdirAll", "Rename", "Remove", "OpenFile+create", "Write", "Write+torn":
+				// ("Write" / "Write+torn": before, and in the middle of, a write of 8 KiB or more - journal and table blocks)
 				point("ldb:" + op)
 			}
 		}
@@ -606,6 +607,69 @@ func runC08(c *fw.Ctx) {
 						}
 					}
 				}
+			}
+		}
+	}
+	// rows larger than the blocks leveldb writes its journal in (32 KiB): the record of one acknowledged or in-flight
+	// write spans several write calls, each of which is a crash point before it and in its middle (a torn write)
+	big := func(tag byte, n int) string {
+		b := make([]byte, n)
+		for i := range b {
+			b[i] = tag + byte(i%23)
+		}
+		return string(b)
+	}
+	bigPut := func(key string, tag byte, n int) bt.Op {
+		return bt.Op{Kind: "MutateRow", Table: tblT, Key: []byte(key), Muts: []bt.Mut{mset("f", "big", 1000, big(tag, n))}}
+	}
+	for bi, ops := range [][]bt.Op{
+		{alpha[0], alpha[2], bigPut("b", 'A', 100_000)},
+		{alpha[0], bigPut("b", 'A', 100_000), alpha[2]},
+		{alpha[0], bigPut("b", 'A', 70_000), bigPut("b", 'N', 40_000)},
+		{alpha[0], alpha[2], bigPut("b", 'A', 33_000), {Kind: "DropRowRange", Table: tblT, Prefix: []byte("b")}},
+	} {
+		item++
+		if !c.Mine(item) {
+			continue
+		}
+		if c.Expired() {
+			c.Incomplete("time budget reached in the large-row pass")
+			break
+		}
+		count := func(o []bt.Op) (int, string) {
+			c20Seq++
+			dir := filepath.Join(c.Scratch, fmt.Sprintf("c08-count-%d", c20Seq))
+			_ = os.MkdirAll(dir, 0o777)
+			defer os.RemoveAll(dir)
+			_, _, t, e := runChild(c, dir, o, -1, stepwise)
+			return t, e
+		}
+		total, e1 := count(ops)
+		t2, e2 := count(ops[:len(ops)-1])
+		if e1 != "" || e2 != "" {
+			c.InternalError("C08 child: " + e1 + e2)
+			return
+		}
+		for k := t2 - 1; k < total; k++ {
+			cs := c08Case{Segs: []c08Seg{{Ops: ops, Kill: k}}}
+			cl, dtl := runC08Case(c, cs, stepwise)
+			c.Eval(1)
+			if dtl == "beyond" {
+				continue
+			}
+			c.State(fw.Hash("large-row", fmt.Sprint(bi, k)))
+			c.Outcome("kill-in:large-row")
+			if cl != "" {
+				if len(dtl) > 1500 {
+					dtl = dtl[:1500] + "…"
+				}
+				c.Violate("C08:"+cl+":large-row:"+c08Tag(cs), dtl+fmt.Sprintf("\n  program %d of the large-row pass (rows of 33-100 KB), kill point %d", bi, k), cs, func() string {
+					cl2, _ := runC08Case(c, cs, stepwise)
+					if cl2 == "" {
+						return ""
+					}
+					return "C08:" + cl2 + ":large-row:" + c08Tag(cs)
+				})
 			}
 		}
 	}
